@@ -171,7 +171,7 @@ func runERC20Reddem(ctx *action.Context, tx action.RawTx) (bool, action.Response
 		return false, action.Response{Log: "error in getting validator addresses" + err.Error()}
 	}
 	name := ethcommon.BytesToHash(erc20redeem.ETHTxn)
-	if ctx.ETHTrackers.WithPrefixType(trackerlib.PrefixOngoing).Exists(name) || ctx.ETHTrackers.WithPrefixType(trackerlib.PrefixPassed).Exists(name) {
+	if ctx.ETHTrackers.WithPrefixType(trackerlib.PrefixOngoing).Exists(name) || ctx.ETHTrackers.WithPrefixType(trackerlib.PrefixFailed).Exists(name) || ctx.ETHTrackers.WithPrefixType(trackerlib.PrefixPassed).Exists(name) {
 		return false, action.Response{
 			Log: "Tracker already exists",
 		}
@@ -192,6 +192,9 @@ func runERC20Reddem(ctx *action.Context, tx action.RawTx) (bool, action.Response
 
 	// Save eth Tracker
 	err = ctx.ETHTrackers.WithPrefixType(trackerlib.PrefixOngoing).Set(tracker)
+	if err != nil {
+		return false, action.Response{Log: trackerlib.ErrETHTrackerUnableToSet.Error()}
+	}
 	return true, action.Response{
 		Data:      nil,
 		Log:       "",
